@@ -424,6 +424,18 @@ func (e *engine) corpus() {
 						continue
 					}
 
+					if cfg.Diag == "trace" && len(e.plan.CorpusTraceModes) > 0 {
+						ok := false
+
+						for _, m := range e.plan.CorpusTraceModes {
+							ok = ok || m == mode
+						}
+
+						if !ok {
+							continue
+						}
+					}
+
 					want := ref
 					if cfg.Diag == "trace" {
 						want = refCoarse
